@@ -395,7 +395,12 @@ def gen_request (rng, xid):
       # (with or without a frame behind the actions: data only means
       #  something when no buffer is named)
       return msg("packet_out", buffer_id=rng.choice([0, 1, 5, 0x7fffffff]),
-                 in_port=1, actions=acts, data=rng.choice([b"", b"", FRAME]))
+                 in_port=1, actions=acts,
+                 # (... or a frame so long that the error cannot quote all of
+                 #  the request: it quotes what fits)
+                 data=rng.choice([b"", b"", FRAME] +
+                                 ([b"\xaa" * (65519 - 8 * len(acts) - rng.choice([0, 1, 8, 11, 12, 20]))]
+                                  if rng.random() < 0.1 else [])))
     if k < 0.35:
       bad = lambda: dict(type=rng.choice([12, 0x77]), data=b"\0" * 4)
       return msg("packet_out", buffer_id=0xffffffff, in_port=1,
